@@ -201,4 +201,246 @@ theorem Store.put_same (σ : Store) (id : Nat) (o : Obj) (hget : σ.get? id = so
       simp only [hb] at hget
       simp [Store.put, hp, ih (by simpa [Store.get?] using hget)]
 
+/-! ### invariants of typed containers and of Table -/
+
+theorem mem_removeAt {α : Type} (xs : List α) (i : Nat) (x : α) (h : x ∈ removeAt xs i) : x ∈ xs := by
+  unfold removeAt at h
+  rcases List.mem_append.mp h with h | h
+  · exact List.mem_of_mem_take h
+  · exact List.mem_of_mem_drop h
+
+theorem mem_insertAt {α : Type} (xs : List α) (i : Nat) (a x : α) (h : x ∈ insertAt xs i a) : x = a ∨ x ∈ xs := by
+  unfold insertAt at h
+  rcases List.mem_append.mp h with h | h
+  · exact Or.inr (List.mem_of_mem_take h)
+  · rcases List.mem_cons.mp h with h | h
+    · exact Or.inl h
+    · exact Or.inr (List.mem_of_mem_drop h)
+
+theorem mem_set' {α : Type} (xs : List α) (i : Nat) (a x : α) (h : x ∈ xs.set i a) : x = a ∨ x ∈ xs := by
+  rcases List.mem_or_eq_of_mem_set h with h | h
+  · exact Or.inr h
+  · exact Or.inl h
+
+theorem mem_of_mem_dropLast' {α : Type} (xs : List α) (x : α) (h : x ∈ xs.dropLast) : x ∈ xs := by
+  rw [List.dropLast_eq_take] at h; exact List.mem_of_mem_take h
+
+/-- typing invariant of Array / List contents -/
+def typedItems (ty : Ty) (items : List Val) : Prop := ty.isElemTy ∧ ∀ x ∈ items, x.elemOf ty
+
+theorem assignTo_elemOf (ty : Ty) (v w : Val) (h : assignTo ty v = .ok w) : w.elemOf ty := by
+  obtain ⟨h1, h2, h3⟩ := assignTo_ok ty v w h
+  subst h1; exact ⟨h2, h3⟩
+
+theorem zeroVal_elemOf (ty : Ty) (h1 : ty.isElemTy) (h2 : ty ≠ .str) : (zeroVal ty).elemOf ty := by
+  cases ty <;> simp_all [zeroVal, Val.elemOf, Val.ty?, Ty.isElemTy]
+
+theorem Lst.concatLoop_typed (ty : Ty) (_hty : ty.isElemTy) : ∀ (vs : List Val) (l : Lst), l.ty = ty → (∀ x ∈ l.items, x.elemOf ty) →
+    (l.concatLoop vs).1.ty = ty ∧ ∀ x ∈ (l.concatLoop vs).1.items, x.elemOf ty := by
+  intro vs
+  induction vs with
+  | nil => intro l h1 h2; simp [Lst.concatLoop, h1]; exact h2
+  | cons v vs ih =>
+    intro l h1 h2
+    simp only [Lst.concatLoop, Lst.push, h1]
+    cases hw : assignTo ty v with
+    | ok w =>
+      simp only
+      apply ih
+      · simp [h1]
+      · intro x hx
+        rcases List.mem_append.mp hx with h | h
+        · exact h2 x h
+        · simp at h; subst h; exact assignTo_elemOf _ _ _ hw
+    | raised e => simp [h1]; exact h2
+    | ub => simp [h1]; exact h2
+
+theorem idealSize_pos (n : Nat) : 0 < idealSize n := by
+  unfold idealSize
+  dsimp only
+  have hs : 1 ≤ (n + 1) * 10 / 9 := by omega
+  split
+  · rename_i p hp
+    have := List.find?_some hp
+    simp at this; omega
+  · have : 1 ≤ ((n + 1) * 10 / 9 + 8800019 - 1) / 8800019 := by omega
+    omega
+
+theorem mem_assocSet (items : List (Val × Val)) (k v : Val) (p : Val × Val) (h : p ∈ assocSet items k v) :
+    p ∈ items ∨ p = (k, v) := by
+  unfold assocSet at h
+  split at h
+  · rcases List.mem_map.mp h with ⟨q, hq, hqp⟩
+    split at hqp
+    · exact Or.inr hqp.symm
+    · subst hqp; exact Or.inl hq
+  · rcases List.mem_append.mp h with h | h
+    · exact Or.inl h
+    · simp at h; exact Or.inr h
+
+theorem Tab.set_wf (t : Tab) (k v : Val) (hw : t.wf) : (t.set k v).1.wf := by
+  obtain ⟨h0, hkeys⟩ := hw
+  obtain ⟨_, _, hc⟩ := castTo_exc t.kty k
+  have hns : (if t.nslots = 0 then idealSize 0 else t.nslots) ≠ 0 := by
+    split
+    · have := idealSize_pos 0; omega
+    · assumption
+  unfold Tab.set
+  dsimp only
+  generalize (if t.nslots = 0 then idealSize 0 else t.nslots) = ns0 at hns ⊢
+  cases hk : castTo t.kty k with
+  | ok k' =>
+    cases hv : castTo t.vty v with
+    | ok v' =>
+      dsimp only
+      have hpos := idealSize_pos (assocSet t.items k' v').length
+      generalize idealSize (assocSet t.items k' v').length = want at hpos ⊢
+      refine ⟨?_, ?_⟩
+      · intro hz; dsimp only at hz; split at hz <;> omega
+      · intro p hp
+        rcases mem_assocSet _ _ _ _ hp with h | h
+        · exact hkeys p h
+        · subst h; dsimp only; exact ((hc k' hk).1 ▸ (hc k' hk).2)
+    | raised e => exact ⟨fun hz => absurd hz hns, hkeys⟩
+    | ub => exact ⟨fun hz => absurd hz hns, hkeys⟩
+  | raised e => exact ⟨fun hz => absurd hz hns, hkeys⟩
+  | ub => exact ⟨fun hz => absurd hz hns, hkeys⟩
+
+theorem Tab.rem_wf (t : Tab) (k : Val) (hw : t.wf) : (t.rem k).1.wf := by
+  obtain ⟨h0, hkeys⟩ := hw
+  unfold Tab.rem
+  cases hk : castTo t.kty k with
+  | ok k' =>
+    dsimp only
+    by_cases hz0 : t.nslots = 0
+    · simp only [hz0, if_true]; exact ⟨h0, hkeys⟩
+    · simp only [hz0, if_false]
+      cases hl : t.items.lookup k' with
+      | none => exact ⟨h0, hkeys⟩
+      | some w =>
+        dsimp only
+        have hpos := idealSize_pos (assocErase t.items k').length
+        generalize idealSize (assocErase t.items k').length = want at hpos ⊢
+        refine ⟨?_, ?_⟩
+        · intro hz; dsimp only at hz; split at hz <;> omega
+        · intro p hp; simp only [assocErase] at hp; exact hkeys p (List.mem_filter.mp hp).1
+  | raised e => exact ⟨h0, hkeys⟩
+  | ub => exact ⟨h0, hkeys⟩
+
+/-! ### print_to: specification -/
+
+/-- an argument that must be an Int -/
+def intArgExc (v : Val) : Option Exc :=
+  match v with
+  | .int _ => none
+  | .null => some .ValueError
+  | _ => some .ClassError
+
+/-- arguments `print_to` can show without printing an address -/
+def Val.printable : Val → Prop
+  | .int _ => True
+  | .str _ => True
+  | .null => True
+  | _ => False
+
+/-- what `print_to` into a String must raise: the first problem met in format order — a segment written into a String that
+    is not on the heap (ValueError), a directive without an argument (FormatError), an argument of the wrong type -/
+def printExc (heap : Bool) : List FmtItem → List Val → Option Exc
+  | [], _ => none
+  | .lit _ :: rest, args => if heap then printExc heap rest args else some .ValueError
+  | .d :: _, [] => some .FormatError
+  | .s :: _, [] => some .FormatError
+  | .q :: _, [] => some .FormatError
+  | .d :: rest, a :: args => (intArgExc a).or (if heap then printExc heap rest args else some .ValueError)
+  | .s :: rest, a :: args => (strArgExc a).or (if heap then printExc heap rest args else some .ValueError)
+  | .q :: rest, _ :: args => if heap then printExc heap rest args else some .ValueError
+
+theorem Str.write_ok (s : Str) (pos : Nat) (t : List Char) (hh : s.alloc.nonHeap = false) (hp : pos ≤ s.s.length) :
+    s.write pos t = ({ s with s := s.s.take pos ++ t }, .ok t.length) ∧
+    pos + t.length ≤ ({ s with s := s.s.take pos ++ t } : Str).s.length := by
+  unfold Str.write
+  have : ¬ pos > s.s.length := by omega
+  simp [hh, this, List.length_take, Nat.min_eq_left hp]
+
+/-! ### Range: specification and arithmetic -/
+
+/-- `start + step*i < stop` for `step > 0`, `i ≥ 0` says exactly that `i` is below the number of elements -/
+theorem range_pos_iff (start stop step i : Int) (hst : 0 < step) (hi : 0 ≤ i) :
+    start + step * i < stop ↔ i < (if stop ≤ start then 0 else (stop - 1 - start) / step + 1) := by
+  have hm : 0 ≤ step * i := Int.mul_nonneg (by omega) hi
+  by_cases h : stop ≤ start
+  · simp only [h, if_true]; omega
+  · simp only [h, if_false]
+    have := Int.le_ediv_iff_mul_le (a := i) (b := stop - 1 - start) hst
+    rw [Int.mul_comm] at this
+    omega
+
+theorem range_neg_iff (start stop step i : Int) (hst : step < 0) (hi : 0 ≤ i) :
+    stop - 1 + step * i ≥ start ↔ i < (if stop ≤ start then 0 else (stop - 1 - start) / (-step) + 1) := by
+  have hm : 0 ≤ (-step) * i := Int.mul_nonneg (by omega) hi
+  have hneg : (-step) * i = -(step * i) := by rw [Int.neg_mul]
+  by_cases h : stop ≤ start
+  · simp only [h, if_true]; omega
+  · simp only [h, if_false]
+    have := Int.le_ediv_iff_mul_le (a := i) (b := stop - 1 - start) (c := -step) (by omega)
+    rw [Int.mul_comm, hneg] at this
+    omega
+
+/-- the fields of the histories' ranges are small: no overflow in `Range_Len` -/
+def Rng.small (r : Rng) : Prop :=
+  -(2 ^ 20 : Int) ≤ r.start ∧ r.start ≤ 2 ^ 20 ∧ -(2 ^ 20 : Int) ≤ r.stop ∧ r.stop ≤ 2 ^ 20 ∧ -(2 ^ 20 : Int) ≤ r.step ∧ r.step ≤ 2 ^ 20
+
+/-- `Range_Len` as an integer -/
+def Rng.lenInt (r : Rng) : Int :=
+  if r.step = 0 then 0 else if r.stop ≤ r.start then 0
+  else if r.step > 0 then (r.stop - 1 - r.start) / r.step + 1 else (r.stop - 1 - r.start) / (-r.step) + 1
+
+theorem Rng.len_eq (r : Rng) : (r.len : Int) = r.lenInt ∧ 0 ≤ r.lenInt := by
+  unfold Rng.len Rng.lenInt
+  by_cases h0 : r.step = 0
+  · simp [h0]
+  · by_cases h1 : r.stop ≤ r.start
+    · simp [h0, h1]
+    · by_cases h2 : r.step > 0
+      · have : 0 ≤ (r.stop - 1 - r.start) / r.step := Int.ediv_nonneg (by omega) (by omega)
+        simp only [h0, h1, h2, if_false, if_true]
+        omega
+      · have : 0 ≤ (r.stop - 1 - r.start) / (-r.step) := Int.ediv_nonneg (by omega) (by omega)
+        simp only [h0, h1, h2, if_false]
+        omega
+
+theorem Rng.lenInt_le (r : Rng) (hs : r.small) : r.lenInt ≤ 2 ^ 22 := by
+  obtain ⟨a1, a2, b1, b2, c1, c2⟩ := hs
+  unfold Rng.lenInt
+  by_cases h0 : r.step = 0
+  · simp [h0]
+  · by_cases h1 : r.stop ≤ r.start
+    · simp [h0, h1]
+    · by_cases h2 : r.step > 0
+      · have := Int.ediv_le_self (a := r.stop - 1 - r.start) r.step (by omega)
+        simp only [h0, h1, h2, if_false, if_true]; omega
+      · have := Int.ediv_le_self (a := r.stop - 1 - r.start) (-r.step) (by omega)
+        simp only [h0, h1, h2, if_false]; omega
+
+/-- documented outcome of `get(range, i)`: the index must lie in `[-len, len)` -/
+def Rng.getExc (r : Rng) (k : Val) : Option Exc :=
+  match k with
+  | .int i => if r.step = 0 then none else if -(r.len : Int) ≤ i ∧ i < r.len then none else some .IndexOutOfBoundsError
+  | .null => some .ValueError
+  | _ => some .ClassError
+
+theorem mul_bound (s i : Int) (hs1 : -(2 ^ 20 : Int) ≤ s) (hs2 : s ≤ 2 ^ 20) (hi1 : 0 ≤ i) (hi2 : i ≤ 2 ^ 40) :
+    -(2 ^ 60 : Int) ≤ s * i ∧ s * i ≤ 2 ^ 60 := by
+  constructor
+  · have h := Int.mul_le_mul_of_nonneg_right (a := -(2 ^ 20 : Int)) (b := s) (c := i) hs1 hi1
+    have h2 : -(2 ^ 20 : Int) * i ≥ -(2 ^ 20) * 2 ^ 40 := by
+      have := Int.mul_le_mul_of_nonneg_left (a := i) (b := (2 ^ 40 : Int)) (c := (2 ^ 20 : Int)) hi2 (by decide)
+      rw [Int.neg_mul, Int.neg_mul]; omega
+    have : -(2 ^ 20 : Int) * 2 ^ 40 = -(2 ^ 60) := by decide
+    omega
+  · have h := Int.mul_le_mul_of_nonneg_right (a := s) (b := (2 ^ 20 : Int)) (c := i) hs2 hi1
+    have h2 := Int.mul_le_mul_of_nonneg_left (a := i) (b := (2 ^ 40 : Int)) (c := (2 ^ 20 : Int)) hi2 (by decide)
+    have : (2 ^ 20 : Int) * 2 ^ 40 = 2 ^ 60 := by decide
+    omega
+
 end Cello.Fail
